@@ -278,4 +278,29 @@ VARIANTS = [
     {"name": "P R2 pod leftover kept whenever it is non-zero (explicit comparison)", "file": DT, "expect": "silent",
      "old": "    extra = (int(left_over),) if left_over else ()\n",
      "new": "    extra = (int(left_over),) if left_over != 0 else ()\n"},
+
+    # ---------------------------------------------------------------- round 5: strict mode / str()-built pod form
+    {"name": "R4 extra-params serializer made non-strict (flags-only layout nests in the probe layout)", "file": TMPL,
+     "expect": "C09.R4",
+     "old": '    ENUM_FIELD = "ParamType"\n    TEMPLATES = EXTRA_PARAM_TEMPLATES\n',
+     "new": '    ENUM_FIELD = "ParamType"\n    STRICT = False\n    TEMPLATES = EXTRA_PARAM_TEMPLATES\n'},
+    {"name": "P R4 strict mode restated on a subclass", "file": TMPL, "expect": "silent",
+     "old": '    ENUM_FIELD = "ParamType"\n    TEMPLATES = EXTRA_PARAM_TEMPLATES\n',
+     "new": '    ENUM_FIELD = "ParamType"\n    STRICT = True\n    TEMPLATES = EXTRA_PARAM_TEMPLATES\n'},
+    {"name": "R7 pod string renders the class before the type", "file": "hippolyzer/lib/base/namevalue.py", "expect": "C09.R7",
+     "old": 'return f"{self.name} {self.type} {self.rw} {self.sendto} {self.value}"',
+     "new": 'return f"{self.name} {self.rw} {self.type} {self.sendto} {self.value}"'},
+    {"name": "R7 pod string upper-cased for display", "file": "hippolyzer/lib/base/namevalue.py", "expect": "C09.R7",
+     "old": 'return f"{self.name} {self.type} {self.rw} {self.sendto} {self.value}"',
+     "new": 'return f"{self.name} {self.type} {self.rw} {self.sendto} {self.value}".upper()'},
+    {"name": "R7 pod string aligned with two-character separators", "file": "hippolyzer/lib/base/namevalue.py", "expect": "C09.R7",
+     "old": 'return f"{self.name} {self.type} {self.rw} {self.sendto} {self.value}"',
+     "new": 'return ", ".join((self.name, str(self.type), str(self.rw), str(self.sendto), self.value))'},
+    {"name": "P R7 pod string built with join", "file": "hippolyzer/lib/base/namevalue.py", "expect": "silent",
+     "old": 'return f"{self.name} {self.type} {self.rw} {self.sendto} {self.value}"',
+     "new": 'return " ".join((self.name, str(self.type), str(self.rw), str(self.sendto), self.value))'},
+    {"name": "P R7 tab separated pod string (tab is a field terminator too)", "file": "hippolyzer/lib/base/namevalue.py",
+     "expect": "silent",
+     "old": 'return f"{self.name} {self.type} {self.rw} {self.sendto} {self.value}"',
+     "new": 'return f"{self.name}\\t{self.type}\\t{self.rw}\\t{self.sendto}\\t{self.value}"'},
 ]
